@@ -9,6 +9,7 @@ import (
 	"sort"
 	"strings"
 	"sync"
+	"time"
 
 	"github.com/microcosm-cc/bluemonday"
 	"github.com/microcosm-cc/bluemonday/verifsim"
@@ -137,6 +138,40 @@ func genC13(seed uint64, idx int, tier string) interface{} {
 		pl.HoldKind = r.Pick([]string{"cb", "cb", "sync", "write", "map", "read"})
 	}
 	pl.MapOrder = MapOrder{Mode: []string{"canonical", "reversed", "random", "random"}[r.Intn(4)], Seed: r.U64()}
+	// fault kind "callback panics": a caller-supplied URL policy that panics on one host.  Drawn from
+	// its own fork after everything else, so every other plan of the stream is unchanged.
+	if fr := r.Fork(0xca11bac); fr.Bool(0.06) {
+		pl.Recipe.Ops = append(pl.Recipe.Ops,
+			Op{K: "AllowAttrs", Names: []string{"href"}, Scope: "els", Els: []string{"a"}},
+			Op{K: "AllowURLSchemeWithCustomPolicy", Names: []string{"boom"}, Fn: "panichost=boom.example"},
+			Op{K: "AllowURLSchemeWithCustomPolicy", Names: []string{"calm"}, Fn: "host=good.example"})
+		pl.Inputs = append(pl.Inputs,
+			[]byte(`<p>x <a href="boom://boom.example/p">b</a> y</p>`),
+			[]byte(`<p><a href="calm://good.example/p">c</a> <a href="boom://fine.example/q">d</a></p>`))
+		nb, nc := len(pl.Inputs)-2, len(pl.Inputs)-1
+		// the first operation of one task meets the panic; later operations everywhere reach the callbacks again
+		bt := fr.Intn(len(pl.Tasks))
+		pl.Tasks[bt][0].Input = nb
+		for t := range pl.Tasks {
+			last := len(pl.Tasks[t]) - 1
+			if t == bt && last == 0 {
+				pl.Tasks[t] = append(pl.Tasks[t], pl.Tasks[t][0])
+				last = 1
+			}
+			pl.Tasks[t][last].Input = nc
+		}
+		for t := range pl.Tasks { // chunk plans and fault offsets were drawn for other input lengths
+			for o := range pl.Tasks[t] {
+				op := &pl.Tasks[t][o]
+				if op.Input == nb || op.Input == nc {
+					op.Read, op.WFault = ReadPlan{}, nil
+					if op.Entry == "SanitizeReader" || op.Entry == "SanitizeReaderToWriter" {
+						op.Read = genChunksCoarse(fr, len(pl.Inputs[op.Input]))
+					}
+				}
+			}
+		}
+	}
 	return pl
 }
 
@@ -450,6 +485,10 @@ func summariseRace(rep string) (site string, short string) {
 
 var c13BlockMs = 5000
 
+// c13HangMs: silence after which released tasks count as blocked for good (free mode only; the
+// unchanged tree never enters free mode).
+var c13HangMs = 40000
+
 var c13CanaryDone bool
 
 // c13Canary proves, in this very process, that the baton hides nothing from the
@@ -542,6 +581,36 @@ func runC13inner(planJSON []byte, canary bool) (*RunResult, error) {
 		go tasks[i].main(&wg)
 	}
 	sc.run()
+	if sc.hung {
+		// Tasks are blocked for good inside the library (they stay parked in this process).  If every
+		// one of the operations returns when run alone on a fresh policy, that is a violation.
+		clearTasks()
+		res.count("runs_hung", 1)
+		defer func() { c13HangMs = 8000 }() // this tree hangs: later runs of this process wait less
+		soloDone := make(chan bool, 1)
+		go func() {
+			for _, ops := range pl.Tasks {
+				for _, op := range ops {
+					cp := make([][]byte, len(pl.Inputs))
+					for i, in := range pl.Inputs {
+						cp[i] = append([]byte{}, in...)
+					}
+					execOp(BuildPolicy(pl.Recipe), cp, op, nil)
+				}
+			}
+			soloDone <- true
+		}()
+		select {
+		case <-soloDone:
+			res.Violations = append(res.Violations, Violation{Property: "C13", Oracle: "C13/call-never-returns", Site: "Sanitize*",
+				Detail: fmt.Sprintf("concurrent Sanitize* calls on the shared policy made no progress for %d s and never returned; each of the same calls alone on a fresh policy returns", c13HangMs/1000),
+				Plan:   mustJSON(pl), Observed: "blocked", Expected: "returns"})
+		case <-time.After(time.Duration(c13HangMs) * time.Millisecond):
+			res.Notes = append(res.Notes, "calls block even alone on a fresh policy (not a C13 matter)")
+		}
+		res.Digest = "hung"
+		return res, nil
+	}
 	wg.Wait() // happens-before edge from every task's end to the checks below
 	clearTasks()
 	if canary {
@@ -584,7 +653,11 @@ func runC13inner(planJSON []byte, canary bool) (*RunResult, error) {
 				if got.Panicked == "" {
 					viol("C13/result-differs", op.Entry, where+": the solo reference panics ("+ref.Panicked+") but the concurrent call did not", nil, nil)
 				} else {
-					res.Notes = append(res.Notes, "operation panics even alone (C14 matter): "+ref.Panicked)
+					if strings.Contains(ref.Panicked, "harness callback") {
+						res.count("callback_panic_fired", 1) // injected fault: the caller's own callback panicked, alone and shared alike
+					} else {
+						res.Notes = append(res.Notes, "operation panics even alone (C14 matter): "+ref.Panicked)
+					}
 				}
 				continue
 			}
@@ -621,8 +694,24 @@ func runC13inner(planJSON []byte, canary bool) (*RunResult, error) {
 	fresh := BuildPolicy(pl.Recipe)
 	for i, in := range pl.Inputs {
 		var a, b string
-		pa := guarded(func() { a = shared.Sanitize(string(in)) })
 		pb := guarded(func() { b = fresh.Sanitize(string(in)) })
+		var pa string
+		type late struct{ p, out string }
+		lateCh := make(chan late, 1)
+		go func(in string) {
+			var o string
+			pp := guarded(func() { o = shared.Sanitize(in) })
+			lateCh <- late{pp, o}
+		}(string(in))
+		select {
+		case l := <-lateCh:
+			pa, a = l.p, l.out
+		case <-time.After(time.Duration(c13HangMs) * time.Millisecond):
+			viol("C13/call-never-returns", "Sanitize", fmt.Sprintf("after the concurrent phase Sanitize(input %d) on the shared policy does not return within %d s; on a fresh policy it returns at once", i, c13HangMs/1000), "blocked", b)
+			res.count("runs_hung", 1)
+			res.Digest = "hung"
+			return res, nil
+		}
 		res.Evals += 2
 		if pa != pb || a != b {
 			viol("C13/later-behaviour-changed", "Sanitize", fmt.Sprintf("after the concurrent phase the shared policy sanitises input %d to %s, a fresh policy to %s", i, clip([]byte(a), 160), clip([]byte(b), 160)), a, b)
